@@ -1,11 +1,64 @@
 /-
   C05 — sorted sets behave like a member-to-score map ranked by (score, member bytes).
+
+  "For every sequence of sorted-set operations each key holds exactly the member-to-score map an
+  in-memory map would hold, and every rank-based or score-based query (rank, reverse rank, range by
+  rank or score in either direction with offset and count, count, remove by rank or score) selects
+  exactly the elements obtained by sorting that map by score and then by member bytes. Add and
+  increment report created-vs-updated and the new score truthfully, an empty or inverted range
+  selects nothing, and union and intersection (with or without storing, for sum, min and max)
+  produce exactly the members of the mathematical result for any key list and, for lists of
+  distinct keys, exactly the aggregated scores."
+
+  What is proved here. `Model.dbRun` is the statement-level model of the `DB`-level methods of
+  `internal/rzset` over the six tables; `Spec.step` is the in-memory map; `Spec.abs now db` is the
+  map a table state stands for at clock value `now`. `zset_refines_partial` says that one call of
+  ANY of the seventeen sorted-set operations (`Covered` = the whole family; `Scan` has no
+  specification) on any table state satisfying the structural invariant C11 (`DB.Inv`), with any
+  arguments and any clock value, returns what the map returns and leaves tables that stand for the
+  map's new state — outside four narrow, decidable classes of inputs on which the real code (and
+  therefore the model) is known to deviate, each proved equal to its entry in the driver's
+  catalogue `Spec.known` (`classifiers_are_the_catalogue`):
+
+    * `Stale` (D05): the operation writes to a name whose stored key row has expired;
+    * `RepeatedKey` (D07): an intersection over a key list that names a key twice;
+    * `DestIsSource` (D08): a storing union / intersection whose destination is also a source;
+    * `RankInverted` (D09): `DeleteWith.ByRank(a, b)` with `0 ≤ b`, `b + 1 < a`;
+
+  and outside one class that is NOT in the catalogue and was found by this proof:
+
+    * `SumOrder`: a `sum` over three or more keys. The model (like SQLite's `sum()`) adds the
+      scores of a member in table order, the specification in key-list order, and float addition
+      is not associative (`sum_order_deviates`: 2^53 + 1 + 1). `min`, `max` and sums of at most two
+      terms are order-independent and are covered for every key list.
+
+  Side conditions that are not deviations: `ArgsOk` (`AddMany` takes a Go map, so no member is
+  repeated; the scores of a union are fixed by C05 only for distinct keys) and `Decided` (the
+  specification answers `skip` when a score sum is NaN: `inf + -inf`). Each is shown necessary
+  (`addmany_repeated_member`, `union_repeated_key`, `nan_is_undecided`).
+
+  Every classifier has a kernel-checked witness (`stale_add_deviates`, `repeated_key_deviates`,
+  `dest_is_source_deviates`, `rank_inverted_deviates`, `sum_order_deviates`), so the full-strength
+  statement is false (`full_strength_is_false`).
+
+  `zset_seq_refines` lifts the single step to sequences at non-decreasing clock values; it rests
+  on `zset_preserves_zwf` (every operation keeps `DB.ZWF`, the consequence of the invariant the
+  proofs use, for all states and arguments) and `Spec.abs_mono`. The sentences of the property are
+  restated one by one at the end (`missing_key_reads_empty`, `len_is_number_of_members`,
+  `add_reports_created`, `score_after_add`, `inverted_score_range_selects_nothing`,
+  `inverted_rank_range_selects_nothing`).
+
+  Results are compared with `=` on `Out` (`Spec.outEq` is built from `partial def`s and is opaque
+  to the kernel; sorted-set results never contain key rows, on which alone it differs from `=`).
+
+  Lemmas live in `RedkaModel/Proofs/ZSetRef.lean` (order, canonical sorting, reads),
+  `ZSetWrite.lean` (table primitives, writes) and `ZSetComb.lean` (union / intersection).
 -/
-import RedkaModel.Proofs.ZSetWrite
+import RedkaModel.Proofs.ZSetComb
 
 namespace Redka.Props.C05
 
-open Redka Redka.Model Redka.Spec
+open Redka Redka.Model Redka.Spec Redka.ZSetRef
 
 /-! ### the family, the classifiers of known deviations, the side conditions -/
 
@@ -21,10 +74,8 @@ def IsZOp (op : Op) : Prop := isZOp op = true
 
 instance (op : Op) : Decidable (IsZOp op) := inferInstanceAs (Decidable (_ = true))
 
-/-- the constructors the refinement theorem covers -/
-def Covered : Op → Bool
-  | .zInter .. | .zInterStore .. | .zUnion .. | .zUnionStore .. => false
-  | op => isZOp op
+/-- the constructors the refinement theorem covers: all of them -/
+def Covered : Op → Bool := isZOp
 
 /-- D05, exactly as in `Spec.known` -/
 def Stale (op : Op) (now : Int) (db : DB) : Bool :=
@@ -54,10 +105,21 @@ theorem classifiers_are_the_catalogue : ∀ (inTx : Bool) (op : Op) (now : Int) 
   intro inTx op now db hop
   cases op <;> first | (cases hop; done) | (simp [Spec.known, Stale, RepeatedKey, DestIsSource, RankInverted])
 
-/-- `AddMany` takes a Go map: no member occurs twice -/
+/-- `AddMany` takes a Go map: no member occurs twice. C05 fixes the scores of a union only for a
+list of distinct keys (for an intersection a repeated key is D07 already). -/
 def ArgsOk : Op → Bool
   | .zAddMany _ items => Spec.distinct (items.map (·.1))
+  | .zUnion ks _ | .zUnionStore _ ks _ => Spec.distinct ks
   | _ => true
+
+/-- NOT in the catalogue: a `sum` over three or more keys. The model adds the scores of a member in
+table (rowid) order, the specification in key-list order; float addition is not associative, so
+the two sums can differ in the last bit (`sum_order_deviates`). `min`, `max` and sums of at most
+two terms do not depend on the order. -/
+def SumOrder : Op → Bool
+  | .zInter ks agg | .zUnion ks agg | .zInterStore _ ks agg | .zUnionStore _ ks agg =>
+    decide (agg = .sum) && decide (ks.length ≥ 3)
+  | _ => false
 
 /-- the specification decides the case (it does not for a score sum that is not a number) -/
 def Decided (op : Op) (now : Int) (db : DB) : Bool :=
@@ -72,11 +134,18 @@ theorem distinct_iff_nodup : ∀ (l : List Bytes), Spec.distinct l = true ↔ l.
 theorem zset_refines_zwf : ∀ (op : Op) (now : Int) (db : DB),
     IsZOp op → db.ZWF → Covered op = true → ArgsOk op = true → Decided op now db = true →
     Stale op now db = false → RepeatedKey op = false → DestIsSource op = false →
-    RankInverted op = false →
+    RankInverted op = false → SumOrder op = false →
     let r := Model.dbRun op now db
     r.out = (Spec.step op now (Spec.abs now db)).out ∧
       Spec.abs now r.db = Spec.purge now (Spec.step op now (Spec.abs now db)).st := by
-  intro op now db hop hz hcov harg hdec hst hrep hdst hrank
+  intro op now db hop hz hcov harg hdec hst hrep hdst hrank hsum
+  have hord : ∀ (agg : Agg) (ks : List Bytes),
+      (decide (agg = .sum) && decide (ks.length ≥ 3)) = false → agg ≠ .sum ∨ ks.length ≤ 2 := by
+    intro agg ks h
+    simp only [Bool.and_eq_false_iff, decide_eq_false_iff_not] at h
+    rcases h with h | h
+    · exact Or.inl h
+    · exact Or.inr (by omega)
   cases op <;> first | (cases hop; done) | (cases hcov; done) | skip
   case zAdd k e s =>
     have hns : staleKey db now k = false := by simpa [Stale, writeKeys] using hst
@@ -108,7 +177,627 @@ theorem zset_refines_zwf : ∀ (op : Op) (now : Int) (db : DB),
       simp only [] at hold
       simp [Spec.zIncr, hg, hold, hadd, Spec.skip, Spec.isSkip] at hd
   case zLen k => exact zLen_refines hz now k
+  case zInter ks agg =>
+    have hks : ks.Nodup := (distinct_iff_nodup ks).1 (by simpa [RepeatedKey] using hrep)
+    cases hc : Spec.zCombine (Spec.abs now db) ks agg true with
+    | none => simp [Decided, Spec.step, hc, Spec.skip, Spec.isSkip] at hdec
+    | some r =>
+      have := zCombineRun_refines hz now hks agg (hord agg ks hsum) true hc
+      show Refines now (zCombineRun db ks agg true now) (Spec.step (.zInter ks agg) now _)
+      simp only [Spec.step, hc]
+      exact this
+  case zUnion ks agg =>
+    have hks : ks.Nodup := (distinct_iff_nodup ks).1 harg
+    cases hc : Spec.zCombine (Spec.abs now db) ks agg false with
+    | none => simp [Decided, Spec.step, hc, Spec.skip, Spec.isSkip] at hdec
+    | some r =>
+      have := zCombineRun_refines hz now hks agg (hord agg ks hsum) false hc
+      show Refines now (zCombineRun db ks agg false now) (Spec.step (.zUnion ks agg) now _)
+      simp only [Spec.step, hc]
+      exact this
+  case zInterStore d ks agg =>
+    have hks : ks.Nodup := (distinct_iff_nodup ks).1 (by simpa [RepeatedKey] using hrep)
+    have hd : d ∉ ks := by simpa [DestIsSource] using hdst
+    have hns : staleKey db now d = false := by simpa [Stale, writeKeys] using hst
+    cases hc : Spec.zCombine (Spec.abs now db) ks agg true with
+    | none => simp [Decided, Spec.step, hc, Spec.skip, Spec.isSkip] at hdec
+    | some r =>
+      have := zCombineStore_refines hz hks hd hns agg (hord agg ks hsum) true hc
+      show Refines now (update (fun x => zCombineStore x d ks agg true now) db)
+        (Spec.step (.zInterStore d ks agg) now _)
+      simp only [Spec.step, hc]
+      exact this
+  case zUnionStore d ks agg =>
+    have hks : ks.Nodup := (distinct_iff_nodup ks).1 harg
+    have hd : d ∉ ks := by simpa [DestIsSource] using hdst
+    have hns : staleKey db now d = false := by simpa [Stale, writeKeys] using hst
+    cases hc : Spec.zCombine (Spec.abs now db) ks agg false with
+    | none => simp [Decided, Spec.step, hc, Spec.skip, Spec.isSkip] at hdec
+    | some r =>
+      have := zCombineStore_refines hz hks hd hns agg (hord agg ks hsum) false hc
+      show Refines now (update (fun x => zCombineStore x d ks agg false now) db)
+        (Spec.step (.zUnionStore d ks agg) now _)
+      simp only [Spec.step, hc]
+      exact this
   case zRangeRank k a b desc => exact zRangeRank_refines hz now k a b desc
   case zRangeScore k lo hi desc off cnt => exact zRangeScore_refines hz now k lo hi desc off cnt
+
+/-- **C05, partial refinement.** One call of any sorted-set operation, on any table state
+satisfying the structural invariant, for any arguments and any clock value, outside the classes
+D05, D07, D08, D09 and `SumOrder`: the model returns exactly what the in-memory map returns, and
+the tables afterwards stand for exactly the map's new state. -/
+theorem zset_refines_partial : ∀ (op : Op) (now : Int) (db : DB),
+    IsZOp op → db.Inv → Covered op = true → ArgsOk op = true → Decided op now db = true →
+    Stale op now db = false → RepeatedKey op = false → DestIsSource op = false →
+    RankInverted op = false → SumOrder op = false →
+    let r := Model.dbRun op now db
+    r.out = (Spec.step op now (Spec.abs now db)).out ∧
+      Spec.abs now r.db = Spec.purge now (Spec.step op now (Spec.abs now db)).st :=
+  fun op now db hop hinv => zset_refines_zwf op now db hop (DB.Inv.zwf hinv)
+
+/-- every family member is covered -/
+theorem covered_all : ∀ op, IsZOp op → Covered op = true := fun _ h => h
+
+/-! ### sequences of operations -/
+
+/-- Every sorted-set operation keeps `DB.ZWF` (for every state and argument, deviation classes
+included). -/
+theorem zset_preserves_zwf : ∀ (op : Op) (now : Int) (db : DB), IsZOp op → db.ZWF →
+    (Model.dbRun op now db).db.ZWF := by
+  intro op now db hop hz
+  cases op <;> first | (cases hop; done) | skip
+  case zAdd k e s => exact zAdd_wf hz k e s now
+  case zAddMany k items => exact zAddMany_wf hz k items now
+  case zCount k lo hi => exact hz
+  case zDelete k es => exact zDelete_wf hz k es now
+  case zDeleteRank k a b => exact zDeleteRank_wf hz k a b now
+  case zDeleteScore k lo hi => exact zDeleteScore_wf hz k lo hi now
+  case zGetRank k e =>
+    show (Model.zGetRank db k e false now).db.ZWF
+    unfold Model.zGetRank; simp only []; split <;> exact hz
+  case zGetRankRev k e =>
+    show (Model.zGetRank db k e true now).db.ZWF
+    unfold Model.zGetRank; simp only []; split <;> exact hz
+  case zGetScore k e =>
+    show (Model.zGetScore db k e now).db.ZWF
+    unfold Model.zGetScore; split <;> exact hz
+  case zIncr k e d => exact zIncr_wf hz k e d now
+  case zInter ks agg =>
+    show (zCombineRun db ks agg true now).db.ZWF
+    unfold zCombineRun; simp only []; split <;> exact hz
+  case zInterStore d ks agg => exact zCombineStore_wf hz d ks agg true now
+  case zLen k =>
+    show (Model.zLen db k now).db.ZWF
+    unfold Model.zLen; split
+    · exact hz
+    · split <;> exact hz
+  case zRangeRank k a b desc =>
+    show (Model.zRangeRank db k a b desc now).db.ZWF
+    unfold Model.zRangeRank; split <;> exact hz
+  case zRangeScore k lo hi desc off cnt => exact hz
+  case zUnion ks agg =>
+    show (zCombineRun db ks agg false now).db.ZWF
+    unfold zCombineRun; simp only []; split <;> exact hz
+  case zUnionStore d ks agg => exact zCombineStore_wf hz d ks agg false now
+
+/-- a run of timed calls on the tables: the results, and the tables at the end -/
+def runModel : List (Op × Int) → DB → List Out × DB
+  | [], db => ([], db)
+  | (op, now) :: rest, db =>
+    let r := Model.dbRun op now db
+    let t := runModel rest r.db
+    (r.out :: t.1, t.2)
+
+/-- the same run on the in-memory map; a key disappears when the clock reaches its expiry -/
+def runSpec : List (Op × Int) → State → List Out × State
+  | [], s => ([], s)
+  | (op, now) :: rest, s =>
+    let r := Spec.step op now (Spec.purge now s)
+    let t := runSpec rest (Spec.purge now r.st)
+    (r.out :: t.1, t.2)
+
+/-- no call of the run falls into a deviation class, judged on the tables it meets -/
+def CleanRun : List (Op × Int) → DB → Prop
+  | [], _ => True
+  | (op, now) :: rest, db =>
+    IsZOp op ∧ ArgsOk op = true ∧ Decided op now db = true ∧ Stale op now db = false ∧
+      RepeatedKey op = false ∧ DestIsSource op = false ∧ RankInverted op = false ∧
+      SumOrder op = false ∧ CleanRun rest (Model.dbRun op now db).db
+
+/-- the clock does not run backwards -/
+def ClockOk : Int → List (Op × Int) → Prop
+  | _, [] => True
+  | t, (_, now) :: rest => t ≤ now ∧ ClockOk now rest
+
+def lastClock : Int → List (Op × Int) → Int
+  | t, [] => t
+  | _, (_, now) :: rest => lastClock now rest
+
+/-- **C05 for sequences.** Any sequence of sorted-set operations at non-decreasing clock values,
+started on tables satisfying the invariant and never meeting a deviation class: every call returns
+what the in-memory map returns, and at the end the tables stand for exactly the map. -/
+theorem zset_seq_refines : ∀ (tr : List (Op × Int)) (t : Int) (db : DB), db.ZWF → ClockOk t tr →
+    CleanRun tr db →
+    (runModel tr db).1 = (runSpec tr (Spec.abs t db)).1 ∧
+      Spec.abs (lastClock t tr) (runModel tr db).2 = (runSpec tr (Spec.abs t db)).2
+  | [], _, _, _, _, _ => ⟨rfl, rfl⟩
+  | (op, now) :: rest, t, db, hz, hc, hcl => by
+    obtain ⟨hop, harg, hdec, hst, hrep, hdst, hrank, hsum, hrest⟩ := hcl
+    obtain ⟨href1, href2⟩ := zset_refines_zwf op now db hop hz hop harg hdec hst hrep hdst hrank hsum
+    have ih := zset_seq_refines rest now (Model.dbRun op now db).db
+      (zset_preserves_zwf op now db hop hz) hc.2 hrest
+    simp only [runModel, runSpec, lastClock]
+    rw [← abs_mono hz.names hc.1, ← href1, ← href2]
+    exact ⟨by rw [ih.1], ih.2⟩
+
+theorem zset_seq_refines_inv : ∀ (tr : List (Op × Int)) (t : Int) (db : DB), db.Inv → ClockOk t tr →
+    CleanRun tr db →
+    (runModel tr db).1 = (runSpec tr (Spec.abs t db)).1 ∧
+      Spec.abs (lastClock t tr) (runModel tr db).2 = (runSpec tr (Spec.abs t db)).2 :=
+  fun tr t db hinv => zset_seq_refines tr t db (DB.Inv.zwf hinv)
+
+/-! ### the property, clause by clause -/
+
+theorem dbRun_zLen (k : Bytes) (now : Int) (db : DB) :
+    Model.dbRun (.zLen k) now db = Model.zLen db k now := rfl
+theorem dbRun_zCount (k : Bytes) (lo hi : Score) (now : Int) (db : DB) :
+    Model.dbRun (.zCount k lo hi) now db = Model.zCount db k lo hi now := rfl
+theorem dbRun_zRangeRank (k : Bytes) (a b : Int) (desc : Bool) (now : Int) (db : DB) :
+    Model.dbRun (.zRangeRank k a b desc) now db = Model.zRangeRank db k a b desc now := rfl
+theorem dbRun_zRangeScore (k : Bytes) (lo hi : Score) (desc : Bool) (o c : Int) (now : Int) (db : DB) :
+    Model.dbRun (.zRangeScore k lo hi desc o c) now db = Model.zRangeScore db k lo hi desc o c now := rfl
+theorem dbRun_zGetScore (k e : Bytes) (now : Int) (db : DB) :
+    Model.dbRun (.zGetScore k e) now db = Model.zGetScore db k e now := rfl
+theorem dbRun_zGetRank (k e : Bytes) (now : Int) (db : DB) :
+    Model.dbRun (.zGetRank k e) now db = Model.zGetRank db k e false now := rfl
+theorem dbRun_zDeleteScore (k : Bytes) (lo hi : Score) (now : Int) (db : DB) :
+    Model.dbRun (.zDeleteScore k lo hi) now db
+      = update (fun d => Model.zDeleteScore d k lo hi now) db := rfl
+
+theorem rankSlice_nil {α : Type} (a b : Int) : rankSlice ([] : List α) a b = [] := by
+  unfold rankSlice; split <;> simp
+
+theorem offsetCount_nil {α : Type} (o c : Int) : offsetCount ([] : List α) o c = [] := by
+  unfold offsetCount; split <;> split <;> simp
+
+/-- "a missing key reads as empty": every read of a name the keyspace does not hold answers as on
+the empty sorted set. (The same holds, by `zsetAt`, for a name held by another type.) -/
+theorem missing_key_reads_empty : ∀ (k : Bytes) (now : Int) (db : DB), db.Inv →
+    Spec.get (Spec.abs now db) k = none →
+    (Model.dbRun (.zLen k) now db).out = .ok (.int 0) ∧
+    (∀ lo hi, (Model.dbRun (.zCount k lo hi) now db).out = .ok (.int 0)) ∧
+    (∀ a b desc, (Model.dbRun (.zRangeRank k a b desc) now db).out = .ok (.list [])) ∧
+    (∀ lo hi desc o c, (Model.dbRun (.zRangeScore k lo hi desc o c) now db).out = .ok (.list [])) ∧
+    (∀ e, (Model.dbRun (.zGetScore k e) now db).out = .error .notFound) ∧
+    (∀ e, (Model.dbRun (.zGetRank k e) now db).out = .error .notFound) := by
+  intro k now db hinv hg
+  have hz := DB.Inv.zwf hinv
+  have h0 := zsetAt_of_get_none hg
+  refine ⟨?_, ?_, ?_, ?_, ?_, ?_⟩
+  · rw [dbRun_zLen, (zLen_refines hz now k).1, h0]; rfl
+  · intro lo hi; rw [dbRun_zCount, (zCount_refines hz now k lo hi).1, h0]; rfl
+  · intro a b desc
+    rw [dbRun_zRangeRank, (zRangeRank_refines hz now k a b desc).1, h0]
+    cases desc <;> simp [zsorted_nil, rankSlice_nil, Spec.ok]
+  · intro lo hi desc o c
+    rw [dbRun_zRangeScore, (zRangeScore_refines hz now k lo hi desc o c).1, h0]
+    cases desc <;> simp [zsorted_nil, offsetCount_nil, Spec.ok]
+  · intro e; rw [dbRun_zGetScore, (zGetScore_refines hz now k e).1, h0]; rfl
+  · intro e
+    rw [dbRun_zGetRank, (zGetRank_refines hz now k e false).1]
+    simp [Spec.zGetRank, h0, zsorted_nil, Spec.indexOf?, Spec.er]
+
+theorem between_all (x : Score) : Spec.between .negInf .posInf x = true := by
+  cases x <;> rfl
+
+/-- "cardinality = number of enumerated elements": `Len` is the length of what the full score
+range enumerates, and that is the map in rank order. -/
+theorem len_is_number_of_members : ∀ (k : Bytes) (now : Int) (db : DB), db.Inv →
+    let z := Spec.zsetAt (Spec.abs now db) k
+    (Model.dbRun (.zRangeScore k .negInf .posInf false 0 0) now db).out
+        = .ok (.list ((Spec.zsorted z).map Spec.zItem)) ∧
+    (Model.dbRun (.zLen k) now db).out = .ok (.int ((Spec.zsorted z).map Spec.zItem).length) := by
+  intro k now db hinv
+  have hz := DB.Inv.zwf hinv
+  refine ⟨?_, ?_⟩
+  · rw [dbRun_zRangeScore, (zRangeScore_refines hz now k .negInf .posInf false 0 0).1]
+    have : (zsorted (zsetAt (Spec.abs now db) k)).filter (fun p => Spec.between .negInf .posInf p.2)
+        = zsorted (zsetAt (Spec.abs now db) k) := by
+      rw [List.filter_eq_self]; intro p _; exact between_all p.2
+    simp [this, offsetCount, Spec.ok]
+  · rw [dbRun_zLen, (zLen_refines hz now k).1, List.length_map, length_zsorted]; rfl
+
+/-- "Add … reports created-vs-updated … truthfully": whenever `Add` succeeds, its answer is
+`true` exactly when the member was not in the map. -/
+theorem add_reports_created : ∀ (k e : Bytes) (sc : Score) (b : Bool) (now : Int) (db : DB), db.Inv →
+    Spec.staleKey db now k = false →
+    (Model.dbRun (.zAdd k e sc) now db).out = .ok (.bool b) →
+    b = (aget (Spec.zsetAt (Spec.abs now db) k) e).isNone := by
+  intro k e sc b now db hinv hns hout
+  have hz := DB.Inv.zwf hinv
+  have href := (zAdd_refines hz hns e sc).1
+  have hout' : (update (fun d => Model.zAdd d k e sc now) db).out = .ok (.bool b) := hout
+  rw [href] at hout'
+  unfold Spec.zAdd at hout'
+  unfold Spec.zsetAt
+  cases hg : Spec.get (Spec.abs now db) k with
+  | none =>
+    rw [hg] at hout'
+    simp only [Spec.ok, Except.ok.injEq, Val.bool.injEq] at hout'
+    rw [← hout']; rfl
+  | some en =>
+    obtain ⟨v, et⟩ := en
+    rw [hg] at hout'
+    cases v <;> first | (simp [Spec.er] at hout'; done) | skip
+    simp only [Spec.ok, Except.ok.injEq, Val.bool.injEq] at hout'
+    rw [← hout']
+
+/-- "…and the new score truthfully": after a successful `Add` the member has that score. -/
+theorem score_after_add : ∀ (k e : Bytes) (sc : Score) (v : Val) (now : Int) (db : DB), db.Inv →
+    Spec.staleKey db now k = false →
+    (Model.dbRun (.zAdd k e sc) now db).out = .ok v →
+    (Model.dbRun (.zGetScore k e) now (Model.dbRun (.zAdd k e sc) now db).db).out = .ok (.score sc) := by
+  intro k e sc v now db hinv hns hout
+  have hz := DB.Inv.zwf hinv
+  have hz' : (Model.dbRun (.zAdd k e sc) now db).db.ZWF := zAdd_wf hz k e sc now
+  obtain ⟨href1, href2⟩ := zAdd_refines hz hns e sc
+  have hout' : (update (fun d => Model.zAdd d k e sc now) db).out = .ok v := hout
+  rw [href1] at hout'
+  have hsorted := sorted_abs hz.names now
+  have key : ∀ (z : List (Bytes × Score)) (et : Option Int), liveAt now et = true →
+      Spec.abs now (Model.dbRun (.zAdd k e sc) now db).db
+        = Spec.purge now (Spec.put (Spec.abs now db) k ⟨.zset (aput z e sc), et⟩) →
+      (Model.dbRun (.zGetScore k e) now (Model.dbRun (.zAdd k e sc) now db).db).out = .ok (.score sc) := by
+    intro z et hl ha
+    rw [dbRun_zGetScore, (zGetScore_refines hz' now k e).1]
+    have hg : Spec.get (Spec.abs now (Model.dbRun (.zAdd k e sc) now db).db) k
+        = some ⟨.zset (aput z e sc), et⟩ := by
+      rw [ha, get_purge (hsorted.put k _), get_put_self]; simp [hl]
+    rw [zsetAt_of_get hg, aget_aput]
+    simp [Spec.ok]
+  unfold Spec.zAdd at hout' href2
+  cases hg : Spec.get (Spec.abs now db) k with
+  | none =>
+    rw [hg] at href2
+    exact key [] none rfl href2
+  | some en =>
+    obtain ⟨w, et⟩ := en
+    rw [hg] at hout' href2
+    have hl := (get_abs_live hz.toWF hg).1
+    cases w <;> first | (simp [Spec.er] at hout'; done) | skip
+    exact key _ et hl href2
+
+theorem score_lt_le_trans {a b c : Score} (h1 : Score.lt a b = true) (h2 : Score.lt c b = false) :
+    Score.lt a c = true := by
+  cases hac : Score.lt a c with
+  | true => rfl
+  | false =>
+    exfalso
+    cases hca : Score.lt c a with
+    | true =>
+      have := ZSetRef.Score.lt_trans hca h1
+      rw [h2] at this; cases this
+    | false =>
+      have := ZSetRef.Score.lt_connected hac hca
+      rw [this, h2] at h1; cases h1
+
+theorem between_inverted {lo hi : Score} (h : Score.lt hi lo = true) (x : Score) :
+    Spec.between lo hi x = false := by
+  unfold Spec.between Score.le
+  cases h1 : Score.lt x lo with
+  | true => rfl
+  | false =>
+    have := score_lt_le_trans h h1
+    simp [this]
+
+/-- "an empty or inverted range selects nothing" (scores): with `hi < lo`, `Count` is 0, the range
+is empty, and remove-by-score removes nothing and changes nothing. -/
+theorem inverted_score_range_selects_nothing : ∀ (k : Bytes) (lo hi : Score) (now : Int) (db : DB),
+    db.Inv → Score.lt hi lo = true →
+    (Model.dbRun (.zCount k lo hi) now db).out = .ok (.int 0) ∧
+    (∀ desc o c, (Model.dbRun (.zRangeScore k lo hi desc o c) now db).out = .ok (.list [])) ∧
+    (Model.dbRun (.zDeleteScore k lo hi) now db).out = .ok (.int 0) ∧
+    Spec.abs now (Model.dbRun (.zDeleteScore k lo hi) now db).db = Spec.abs now db := by
+  intro k lo hi now db hinv hlt
+  have hz := DB.Inv.zwf hinv
+  have hnone : ∀ (l : List (Bytes × Score)), l.filter (fun p => Spec.between lo hi p.2) = [] := by
+    intro l
+    rw [List.filter_eq_nil_iff]
+    intro p _
+    rw [between_inverted hlt]; simp
+  refine ⟨?_, ?_, ?_, ?_⟩
+  · rw [dbRun_zCount, (zCount_refines hz now k lo hi).1, hnone]; rfl
+  · intro desc o c
+    rw [dbRun_zRangeScore, (zRangeScore_refines hz now k lo hi desc o c).1, hnone]
+    cases desc <;> simp [offsetCount_nil, Spec.ok]
+  · have := (zDeleteScore_refines hz now k lo hi).1
+    rw [hnone, List.map_nil, zRemove_nil] at this
+    exact this
+  · have := (zDeleteScore_refines hz now k lo hi).2
+    rw [hnone, List.map_nil, zRemove_nil] at this
+    rw [dbRun_zDeleteScore, this]
+    exact purge_abs hz.names now
+
+/-- "an empty or inverted range selects nothing" (ranks): a range by rank with `a > b` or a
+negative bound is empty. -/
+theorem inverted_rank_range_selects_nothing : ∀ (k : Bytes) (a b : Int) (desc : Bool) (now : Int)
+    (db : DB), db.Inv → (a > b ∨ a < 0 ∨ b < 0) →
+    (Model.dbRun (.zRangeRank k a b desc) now db).out = .ok (.list []) := by
+  intro k a b desc now db hinv h
+  have hz := DB.Inv.zwf hinv
+  rw [dbRun_zRangeRank, (zRangeRank_refines hz now k a b desc).1]
+  have : ∀ (l : List (Bytes × Score)), rankSlice l a b = [] := by
+    intro l; unfold rankSlice; rw [if_pos (by omega)]
+  simp [this, Spec.ok]
+
+
+/-! ### the deviations are real -/
+
+/-! `Val` has no decidable equality; results are inspected through projections. -/
+
+def valItem : Val → Option (Bytes × Score)
+  | .list [.bytes m, .score s] => some (m, s)
+  | _ => none
+
+/-- the (member, score) items of a list result -/
+def outItems : Out → Option (List (Bytes × Score))
+  | .ok (.list l) => some (l.filterMap valItem)
+  | _ => none
+
+def outInt : Out → Option Int
+  | .ok (.int i) => some i
+  | _ => none
+
+def outBool : Out → Option Bool
+  | .ok (.bool b) => some b
+  | _ => none
+
+def outScore : Out → Option Score
+  | .ok (.score s) => some s
+  | _ => none
+
+def outErr : Out → Option Err
+  | .error e => some e
+  | _ => none
+
+def bK : Bytes := [107]          -- "k"
+def bX : Bytes := [120]          -- "x"
+def bY : Bytes := [121]          -- "y"
+def bW : Bytes := [119]          -- "w"
+def bA : Bytes := [97]           -- "a"
+def bB : Bytes := [98]           -- "b"
+def bC : Bytes := [99]           -- "c"
+def bM : Bytes := [109]          -- "m"
+def bN : Bytes := [110]          -- "n", not stored
+def bS : Bytes := [115]          -- "s"
+
+/-- a sorted-set key row without expiry -/
+def zk (id : Int) (k : Bytes) (n : Int) : KeyRow :=
+  { id := id, key := k, ty := 5, version := 1, etime := none, mtime := 0, len := some n }
+
+/-- one sorted set "k" = {a ↦ 1} whose expiry (5) has passed at `now = 10`, not yet cleaned up -/
+def dbStaleZ : DB :=
+  { keys := [{ id := 1, key := bK, ty := 5, version := 1, etime := some 5, mtime := 0, len := some 1 }],
+    zsets := [{ rowid := 1, kid := 1, elem := bA, score := .fin 1 }] }
+
+/-- D05 is real. The sorted set "k" expired at 5; at 10 it does not exist, so `Add(k, b, 2)` must
+create "k" = {b ↦ 2} without expiry. The model (like the code) answers "created" but reuses the
+expired row with its old expiry and its old member: the key still does not exist afterwards. -/
+theorem stale_add_deviates :
+    dbStaleZ.Inv ∧ Stale (.zAdd bK bB (.fin 2)) 10 dbStaleZ = true ∧
+    outBool (Model.dbRun (.zAdd bK bB (.fin 2)) 10 dbStaleZ).out = some true ∧
+    Spec.get (Spec.abs 10 (Model.dbRun (.zAdd bK bB (.fin 2)) 10 dbStaleZ).db) bK = none ∧
+    Spec.get (Spec.purge 10 (Spec.step (.zAdd bK bB (.fin 2)) 10 (Spec.abs 10 dbStaleZ)).st) bK
+      = some ⟨.zset [(bB, .fin 2)], none⟩ := by
+  refine ⟨by unfold DB.Inv; decide, by decide, by decide +kernel, by decide +kernel, by decide +kernel⟩
+
+/-- "x" = {a ↦ 1}, "y" = {b ↦ 2} -/
+def dbXY : DB :=
+  { keys := [zk 1 bX 1, zk 2 bY 1],
+    zsets := [{ rowid := 1, kid := 1, elem := bA, score := .fin 1 },
+              { rowid := 2, kid := 2, elem := bB, score := .fin 2 }] }
+
+/-- D07 is real. `Inter(x, x)`: the intersection of a set with itself is the set, with the score
+summed. The model (like the code, whose `having count(distinct kid) = 2` can never hold) returns
+nothing. -/
+theorem repeated_key_deviates :
+    dbXY.Inv ∧ RepeatedKey (.zInter [bX, bX] .sum) = true ∧
+    Decided (.zInter [bX, bX] .sum) 10 dbXY = true ∧
+    outItems (Model.dbRun (.zInter [bX, bX] .sum) 10 dbXY).out = some [] ∧
+    outItems (Spec.step (.zInter [bX, bX] .sum) 10 (Spec.abs 10 dbXY)).out = some [(bA, .fin 2)] := by
+  refine ⟨by unfold DB.Inv; decide, by decide, by decide +kernel, by decide +kernel, by decide +kernel⟩
+
+/-- D08 is real. `UnionStore(x, [x, y])` must leave x = {a ↦ 1, b ↦ 2} and answer 2. The model
+(like the code) empties the destination first, so x's own members are lost: it answers 1. -/
+theorem dest_is_source_deviates :
+    dbXY.Inv ∧ DestIsSource (.zUnionStore bX [bX, bY] .sum) = true ∧
+    ArgsOk (.zUnionStore bX [bX, bY] .sum) = true ∧
+    outInt (Model.dbRun (.zUnionStore bX [bX, bY] .sum) 10 dbXY).out = some 1 ∧
+    outInt (Spec.step (.zUnionStore bX [bX, bY] .sum) 10 (Spec.abs 10 dbXY)).out = some 2 ∧
+    Spec.zsetAt (Spec.abs 10 (Model.dbRun (.zUnionStore bX [bX, bY] .sum) 10 dbXY).db) bX
+      = [(bB, .fin 2)] := by
+  refine ⟨by unfold DB.Inv; decide, by decide, by decide, by decide +kernel, by decide +kernel,
+    by decide +kernel⟩
+
+/-- "k" = {"0" ↦ 0, "1" ↦ 1, "2" ↦ 2, "3" ↦ 3, "4" ↦ 4} -/
+def db5 : DB :=
+  { keys := [zk 1 bK 5],
+    zsets := [{ rowid := 1, kid := 1, elem := [48], score := .fin 0 },
+              { rowid := 2, kid := 1, elem := [49], score := .fin 1 },
+              { rowid := 3, kid := 1, elem := [50], score := .fin 2 },
+              { rowid := 4, kid := 1, elem := [51], score := .fin 3 },
+              { rowid := 5, kid := 1, elem := [52], score := .fin 4 }] }
+
+/-- D09 is real. `DeleteWith(k).ByRank(3, 1)` is an inverted range and must remove nothing. The
+model (like the code: `limit 3, -1`) removes the ranks 3 and 4. -/
+theorem rank_inverted_deviates :
+    db5.Inv ∧ RankInverted (.zDeleteRank bK 3 1) = true ∧
+    outInt (Model.dbRun (.zDeleteRank bK 3 1) 10 db5).out = some 2 ∧
+    outInt (Spec.step (.zDeleteRank bK 3 1) 10 (Spec.abs 10 db5)).out = some 0 := by
+  refine ⟨by unfold DB.Inv; decide, by decide, by decide +kernel, by decide +kernel⟩
+
+/-- 2^53 -/
+def big : Dyadic := 9007199254740992
+
+/-- "x" = {m ↦ 2^53}, "y" = {m ↦ 1}, "w" = {m ↦ 1}; the row of "x" was written last -/
+def dbSum : DB :=
+  { keys := [zk 1 bX 1, zk 2 bY 1, zk 3 bW 1],
+    zsets := [{ rowid := 1, kid := 2, elem := bM, score := .fin 1 },
+              { rowid := 2, kid := 3, elem := bM, score := .fin 1 },
+              { rowid := 3, kid := 1, elem := bM, score := .fin big }] }
+
+/-- `SumOrder` is real (NOT in the catalogue). `Union(x, y, w)` with sum: in key-list order
+2^53 + 1 rounds back to 2^53, twice; in table order 1 + 1 = 2 and 2 + 2^53 is exact. No other
+classifier fires. -/
+theorem sum_order_deviates :
+    dbSum.Inv ∧ SumOrder (.zUnion [bX, bY, bW] .sum) = true ∧
+    ArgsOk (.zUnion [bX, bY, bW] .sum) = true ∧ Decided (.zUnion [bX, bY, bW] .sum) 10 dbSum = true ∧
+    Spec.known false (.zUnion [bX, bY, bW] .sum) 10 dbSum = [] ∧
+    outItems (Model.dbRun (.zUnion [bX, bY, bW] .sum) 10 dbSum).out = some [(bM, .fin 9007199254740994)] ∧
+    outItems (Spec.step (.zUnion [bX, bY, bW] .sum) 10 (Spec.abs 10 dbSum)).out
+      = some [(bM, .fin 9007199254740992)] := by
+  refine ⟨by unfold DB.Inv; decide, by decide, by decide, by decide +kernel, by decide +kernel,
+    by decide +kernel, by decide +kernel⟩
+
+/-- Hence the refinement statement without the classifiers is false. -/
+theorem full_strength_is_false :
+    ¬ (∀ (op : Op) (now : Int) (db : DB), IsZOp op → db.Inv → ArgsOk op = true →
+        Decided op now db = true →
+        (Model.dbRun op now db).out = (Spec.step op now (Spec.abs now db)).out ∧
+        Spec.abs now (Model.dbRun op now db).db
+          = Spec.purge now (Spec.step op now (Spec.abs now db)).st) := by
+  intro h
+  have h1 := (h (.zInter [bX, bX] .sum) 10 dbXY rfl repeated_key_deviates.1 rfl
+    repeated_key_deviates.2.2.1).1
+  have h2 := congrArg outItems h1
+  rw [repeated_key_deviates.2.2.2.1, repeated_key_deviates.2.2.2.2] at h2
+  exact absurd h2 (by decide)
+
+/-- … and so is the statement with the catalogue's classifiers only (without `SumOrder`). -/
+theorem catalogue_alone_is_not_enough :
+    ¬ (∀ (op : Op) (now : Int) (db : DB), IsZOp op → db.Inv → ArgsOk op = true →
+        Decided op now db = true → Spec.known false op now db = [] →
+        (Model.dbRun op now db).out = (Spec.step op now (Spec.abs now db)).out) := by
+  intro h
+  have d := sum_order_deviates
+  have h1 := h (.zUnion [bX, bY, bW] .sum) 10 dbSum rfl d.1 d.2.2.1 d.2.2.2.1 d.2.2.2.2.1
+  have h2 := congrArg outItems h1
+  rw [d.2.2.2.2.2.1, d.2.2.2.2.2.2] at h2
+  exact absurd h2 (by decide +kernel)
+
+/-! ### the side conditions are needed -/
+
+/-- "k" = {a ↦ 5} -/
+def dbOne : DB :=
+  { keys := [zk 1 bK 1], zsets := [{ rowid := 1, kid := 1, elem := bA, score := .fin 5 }] }
+
+/-- `ArgsOk` for `AddMany`: `Op.zAddMany` carries a list where Go has a map. With the member `a`
+listed twice the model's `len(items) - count` is 1 where no member is new. -/
+theorem addmany_repeated_member :
+    dbOne.Inv ∧ ArgsOk (.zAddMany bK [(bA, .fin 1), (bA, .fin 2)]) = false ∧
+    outInt (Model.dbRun (.zAddMany bK [(bA, .fin 1), (bA, .fin 2)]) 10 dbOne).out = some 1 ∧
+    outInt (Spec.step (.zAddMany bK [(bA, .fin 1), (bA, .fin 2)]) 10 (Spec.abs 10 dbOne)).out = some 0 := by
+  refine ⟨by unfold DB.Inv; decide, by decide, by decide +kernel, by decide +kernel⟩
+
+/-- `ArgsOk` for `Union`: for a repeated key C05 fixes the members only. `Union(x, x)` with sum: the
+model reads x's rows once (a ↦ 1), the specification adds x to itself (a ↦ 2). -/
+theorem union_repeated_key :
+    dbXY.Inv ∧ ArgsOk (.zUnion [bX, bX] .sum) = false ∧
+    outItems (Model.dbRun (.zUnion [bX, bX] .sum) 10 dbXY).out = some [(bA, .fin 1)] ∧
+    outItems (Spec.step (.zUnion [bX, bX] .sum) 10 (Spec.abs 10 dbXY)).out = some [(bA, .fin 2)] := by
+  refine ⟨by unfold DB.Inv; decide, by decide, by decide +kernel, by decide +kernel⟩
+
+/-- "k" = {a ↦ -inf} -/
+def dbInf : DB :=
+  { keys := [zk 1 bK 1], zsets := [{ rowid := 1, kid := 1, elem := bA, score := .negInf }] }
+
+/-- `Decided`: `Incr(k, a, +inf)` on a ↦ -inf is not a number. The specification does not decide
+the case (`skip`); the model (like the code: NaN is stored as NULL, the column is NOT NULL) fails. -/
+theorem nan_is_undecided :
+    dbInf.Inv ∧ Decided (.zIncr bK bA .posInf) 10 dbInf = false ∧
+    outErr (Model.dbRun (.zIncr bK bA .posInf) 10 dbInf).out = some .sqlNotNull ∧
+    (Model.dbRun (.zIncr bK bA .posInf) 10 dbInf).db = dbInf := by
+  refine ⟨by unfold DB.Inv; decide, by decide +kernel, by decide +kernel, by decide +kernel⟩
+
+/-! ### non-vacuity: the hypotheses are satisfiable for every kind of operation -/
+
+/-- "x" = {a ↦ 1, b ↦ 2}; "y" = {b ↦ 5, c ↦ 1}, expiring at 100; "w" = {b ↦ 2^53};
+a string "s" = "v" -/
+def demo : DB :=
+  { keys := [zk 1 bX 2,
+             { id := 2, key := bY, ty := 5, version := 4, etime := some 100, mtime := 0, len := some 2 },
+             zk 3 bW 1,
+             { id := 4, key := bS, ty := 1, version := 1, etime := none, mtime := 0, len := none }],
+    strs := [{ kid := 4, value := [118] }],
+    zsets := [{ rowid := 1, kid := 1, elem := bB, score := .fin 2 },
+              { rowid := 2, kid := 2, elem := bC, score := .fin 1 },
+              { rowid := 3, kid := 1, elem := bA, score := .fin 1 },
+              { rowid := 4, kid := 2, elem := bB, score := .fin 5 },
+              { rowid := 5, kid := 3, elem := bB, score := .fin big }] }
+
+example : demo.Inv := by unfold DB.Inv; decide
+
+def demoOps : List Op :=
+  [.zAdd bX bC (.fin 3), .zAdd bX bA .posInf, .zAdd bN bA (.fin 1), .zAdd bS bA (.fin 1),
+   .zAddMany bX [(bA, .fin 7), (bC, .fin 8)], .zAddMany bN [], .zCount bX (.fin 1) .posInf,
+   .zDelete bY [bB, bN], .zDeleteRank bX 0 0, .zDeleteRank bX 2 1, .zDeleteRank bX (-1) 5,
+   .zDeleteScore bY (.fin 2) .posInf, .zGetRank bX bB, .zGetRankRev bY bC, .zGetScore bN bA,
+   .zIncr bX bA (.fin 2), .zIncr bN bA .negInf, .zInter [bX, bY] .sum, .zInter [bX, bY, bW] .max,
+   .zInter [] .min, .zInterStore bN [bX, bY] .min, .zInterStore bW [bX, bY] .sum, .zLen bY,
+   .zRangeRank bX 0 (-1) false, .zRangeRank bY 0 5 true, .zRangeScore bX .negInf .posInf true 1 1,
+   .zUnion [bX, bY] .sum, .zUnion [bX, bY, bW, bS, bN] .min, .zUnionStore bN [bX, bW] .sum,
+   .zUnionStore bS [bX] .max]
+
+/-- every hypothesis of `zset_refines_partial` holds for operations of each kind on `demo` -/
+example : ∀ op ∈ demoOps,
+    IsZOp op ∧ Covered op = true ∧ ArgsOk op = true ∧ Decided op 10 demo = true ∧
+    Stale op 10 demo = false ∧ RepeatedKey op = false ∧ DestIsSource op = false ∧
+    RankInverted op = false ∧ SumOrder op = false := by
+  decide +kernel
+
+/-- the theorem instantiated: `Union(x, y)` with sum on `demo`, in rank order -/
+example :
+    outItems (Model.dbRun (.zUnion [bX, bY] .sum) 10 demo).out
+      = some [(bA, .fin 1), (bC, .fin 1), (bB, .fin 7)] ∧
+    (Model.dbRun (.zUnion [bX, bY] .sum) 10 demo).out
+      = (Spec.step (.zUnion [bX, bY] .sum) 10 (Spec.abs 10 demo)).out :=
+  ⟨by decide +kernel,
+   (zset_refines_partial (.zUnion [bX, bY] .sum) 10 demo rfl (by unfold DB.Inv; decide) rfl
+     (by decide) (by decide +kernel) (by decide) (by decide) (by decide) (by decide) (by decide)).1⟩
+
+/-- `InterStore(w, [x, y])` with sum replaces w = {b ↦ 2^53} by {b ↦ 7} -/
+example :
+    Spec.zsetAt (Spec.abs 10 (Model.dbRun (.zInterStore bW [bX, bY] .sum) 10 demo).db) bW
+      = [(bB, .fin 7)] := by decide +kernel
+
+/-- a run on `demo` that satisfies the hypotheses of `zset_seq_refines` -/
+def demoRun : List (Op × Int) :=
+  [(.zAdd bN bA (.fin 1), 10), (.zIncr bN bA (.fin 2), 11), (.zAddMany bX [(bC, .fin 0)], 11),
+   (.zUnionStore bW [bX, bY] .sum, 12), (.zDeleteRank bW 0 0, 12), (.zRangeRank bW 0 5 false, 200),
+   (.zInter [bX, bY] .sum, 200)]
+
+instance decCleanRun : ∀ tr db, Decidable (CleanRun tr db)
+  | [], _ => isTrue trivial
+  | (op, now) :: rest, db =>
+    have := decCleanRun rest (Model.dbRun op now db).db
+    inferInstanceAs (Decidable (_ ∧ _ ∧ _ ∧ _ ∧ _ ∧ _ ∧ _ ∧ _ ∧ _))
+
+instance decClockOk : ∀ t tr, Decidable (ClockOk t tr)
+  | _, [] => isTrue trivial
+  | t, (_, now) :: rest =>
+    have := decClockOk now rest
+    inferInstanceAs (Decidable (t ≤ now ∧ ClockOk now rest))
+
+example : ClockOk 10 demoRun ∧ CleanRun demoRun demo := by decide +kernel
+
+/-- at 200 the key "y" (expiry 100) is gone: the last intersection is empty -/
+example :
+    (runSpec demoRun (Spec.abs 10 demo)).1.map outInt
+      = [none, none, some 1, some 3, some 1, none, none] ∧
+    (runSpec demoRun (Spec.abs 10 demo)).1.map outItems
+      = [none, none, none, none, none, some [(bC, .fin 1), (bB, .fin 7)], some []] ∧
+    (runSpec demoRun (Spec.abs 10 demo)).1.map outScore
+      = [none, some (.fin 3), none, none, none, none, none] := by
+  decide +kernel
 
 end Redka.Props.C05
